@@ -20,8 +20,8 @@ RULE = ("Hypothesis histories (3-22 steps) of append / multi-append / delete_fil
         "identical rows; every unreferenced unprotected data/manifest file older than grace (+5 s margin) is gone. Non-trivial: a collection ran with an "
         "eligible orphan and >=2 retained snapshots, or with a live transaction. distinct = hash of (spelling, history).")
 ASSUMPTIONS = ["ages are set with os.utime, not waited for; in-flight markers are kept fresh (younger than 24 h = live transaction)",
-               "local backend here; S3 prefixes are exercised by the S3 variant when the fake store is available"]
-REQUIRED_LABELS = {"quick": ["gc", "gc-eligible-orphan", "gc-with-live-txn", "gc-with>=2-snapshots"], "thorough": ["gc", "gc-eligible-orphan", "gc-with-live-txn"]}
+               "the history machine runs on the local backend; S3 table prefixes (12 spellings x env prefixes, with neighbouring tables sharing a string prefix) are exercised by a second generator on the fake S3 with the same deleted-vs-reachable oracle"]
+REQUIRED_LABELS = {"quick": ["gc", "gc-eligible-orphan", "gc-with-live-txn", "gc-with>=2-snapshots", "s3-prefix"], "thorough": ["gc", "gc-eligible-orphan", "gc-with-live-txn"]}
 
 
 @st.composite
@@ -41,18 +41,110 @@ def check_history(case):
     return {"violations": vios, "labels": sorted(L) + [f"loc:{case['location']}"], "nontrivial": nontrivial}
 
 
+S3_SPELLINGS = [("tbl", ""), ("/tbl/", ""), ("a/b", "env"), ("tbl", "env/"), ("data", ""), ("metadata", "pfx"), ("d", ""), ("m", "x/y"), ("data/data", ""),
+                ("tbl/", "/env/"), ("dat", "data"), ("meta", "metadata")]
+
+
+@st.composite
+def s3_case(draw):
+    table, env = draw(st.sampled_from(S3_SPELLINGS))
+    return {"kind": "s3spell", "table": table, "env": env, "appends": draw(st.integers(1, 3)), "delete": draw(st.booleans()), "expire": draw(st.booleans()),
+            "live_txn": draw(st.booleans()), "grace_ms": draw(st.sampled_from([0, 3600000])), "neighbour": draw(st.booleans())}
+
+
+def check_s3(case):
+    """The same safety/effectiveness oracle on the fake S3 for spellings of the table prefix (with / without env prefix)."""
+    import datashard
+    from ..fakes3 import FakeS3, s3_env
+    from ..hist import FIELDS
+    from ..reader import MapFS, read_view, reachable_files
+    from ..tbl import make_schema
+
+    out = {"violations": [], "labels": [f"s3:{case['table']}|{case['env']}", "s3-prefix"], "nontrivial": True}
+    fake = FakeS3(page_size=3)
+    with s3_env(fake, env_prefix=case["env"]):
+        t = datashard.create_table(case["table"], make_schema(FIELDS))
+        for i in range(case["appends"]):
+            t.append_records([{"k": i, "s": "x"}])
+        if case["delete"]:
+            fp = t._get_all_data_files()[0].file_path
+            with t.new_transaction() as tx:
+                tx.delete_files([fp])
+                tx.commit()
+        if case["expire"]:
+            with t.new_transaction() as tx:
+                tx.expire_snapshots(2**62)
+                tx.commit()
+        key_prefix = t.storage.prefix  # the key prefix the backend derived from env prefix + table location
+        fs = MapFS(fake.objects, key_prefix)
+        fs.prefix = key_prefix  # keep a leading '/' if the backend keeps it
+        P = set()
+        tx_live = None
+        if case["live_txn"]:
+            before = set(fs.list("data"))
+            tx_live = t.new_transaction().begin()
+            tx_live.append_data([{"k": 99, "s": "live"}])
+            P = set(fs.list("data")) - before
+        fake.raw_put(key_prefix + "/data/orphan_old.parquet", b"o")
+        fake.raw_put(key_prefix + "/metadata/manifests/manifest_orphan.avro", b"o")
+        if case["neighbour"]:
+            # objects of OTHER tables whose keys share a string prefix with this table must never be touched
+            fake.raw_put(key_prefix + "2/data/keep.parquet", b"neighbour")
+            fake.raw_put(key_prefix + "/datafile_not_in_data_dir", b"neighbour")
+        fake.age(7200, key_prefix)
+        for k in list(fake.objects):
+            if "/metadata/inflight/" in k:
+                fake.objects[k]["mtime"] = fake.now()
+        v = read_view(fs, rows=False)
+        R = reachable_files(v)
+        before_all = set(fake.objects)
+        try:
+            t.garbage_collect(grace_period_ms=case["grace_ms"])
+            raised = None
+        except Exception as e:  # noqa
+            raised = e
+        deleted = {k[len(key_prefix) + 1:] if k.startswith(key_prefix + "/") else "OUTSIDE:" + k for k in before_all - set(fake.objects)}
+        bad = sorted(d for d in deleted if d in R or d in P or d.startswith("OUTSIDE:") or d == "datafile_not_in_data_dir")
+        if bad:
+            out["violations"].append(("gc-deleted-reachable-s3", f"S3 table {case['table']!r} env prefix {case['env']!r}: garbage_collect deleted {bad[:3]}"))
+        if raised is not None:
+            out["violations"].append((f"gc-raised/{type(raised).__name__}", f"S3 table {case['table']!r} env prefix {case['env']!r}: garbage_collect raised on an intact table: {str(raised)[:150]}"))
+        else:
+            for orphan in ("data/orphan_old.parquet", "metadata/manifests/manifest_orphan.avro"):
+                if fs.exists(orphan):
+                    out["violations"].append(("gc-left-orphan", f"S3 table {case['table']!r}: 2 h old orphan {orphan} not removed (grace {case['grace_ms']})"))
+        try:
+            read_view(fs, rows=True)
+        except Exception as e:  # noqa
+            out["violations"].append(("gc-broke-table-s3", f"after GC the table is unreadable: {e}"))
+        if tx_live is not None:
+            try:
+                tx_live.rollback()
+            except Exception:
+                pass
+    return out
+
+
 def plan(tier, seed):
     n = 200 if tier == "quick" else 3000
-    return [{"n": n, "seed": seed * 1000 + s, "tier": tier} for s in range(16)]
+    tasks = [{"n": n, "seed": seed * 1000 + s, "tier": tier} for s in range(14)]
+    tasks += [{"kind": "s3", "n": 150 if tier == "quick" else 2000, "seed": seed * 1000 + 100 + s, "tier": tier} for s in range(2)]
+    return tasks
 
 
 def run_task(task):
     res = Result()
+    if task.get("kind") == "s3":
+        campaign(s3_case(), check_s3, task["n"], task["seed"], res, PROP, shrink=task["tier"] == "thorough")
+        return res
     campaign(case_strategy(), check_history, task["n"], task["seed"], res, PROP, shrink=task["tier"] == "thorough")
     return res
 
 
 def replay(case):
+    if case.get("kind") == "s3spell":
+        o = check_s3(case)
+        return [{"bucket": b, "what": w} for b, w in o["violations"]]
     _fix_steps(case["steps"])
     o = check_history(case)
     return [{"bucket": b, "what": w} for b, w in o["violations"]]
